@@ -81,10 +81,32 @@ func (g *G) bigFrames() {
 	st3 := streamOf(all)
 	g.emit("pbs %s %d inj 0 %s", framesTok(all), len(st3)-500, compactBytes(st3[:len(st3)-500]))
 	g.emit("pbs %s -1 eof 3 %s", f3.tok(), compactBytes(streamOf([]genFrame{f3})))
+	bigChunks := []int{7, 10}
+	if g.thorough() {
+		bigChunks = []int{7, 9, 10, 11, 13, 15}
+	}
+	for _, chunk := range bigChunks {
+		g.emit("pbs %s -1 eof %d %s", framesTok(all), chunk, compactBytes(streamOf(all)))
+	}
+	// a forged body size followed by more than a megabyte of real data
+	forged := []uint64{1 << 50, 1<<63 - 1}
+	if g.thorough() {
+		forged = []uint64{1 << 50, 1 << 62, 1<<63 - 1, 1<<21 + 5, 1 << 32}
+	}
+	for _, bs := range forged {
+		hdr := make([]byte, 32)
+		copy(hdr, "1.0.0")
+		hdr[16] = 32
+		for i := 0; i < 8; i++ {
+			hdr[24+i] = byte(bs >> uint(8*i))
+		}
+		tail := bytes.Repeat([]byte{0x5a}, 1<<20+4097)
+		g.emit("pbraw %s eof %d 2", compactBytes(append(hdr, tail...)), []int{0, 5, 6, 9}[g.intn(4)])
+	}
 	// every realistic version string, with and without a following frame
 	for _, v := range realisticVersions {
 		f := genFrame{hasVer: true, ver: []byte(v), body: g.bytes(3, 3)}
-		g.emit("pbs %s -1 eof %d %s", framesTok([]genFrame{f, small}), g.intn(6), compactBytes(streamOf([]genFrame{f, small})))
+		g.emit("pbs %s -1 eof %d %s", framesTok([]genFrame{f, small}), g.intn(17), compactBytes(streamOf([]genFrame{f, small})))
 	}
 	if !g.thorough() {
 		return
@@ -175,7 +197,7 @@ func init() {
 				frames[i] = g.frame(bodyLens)
 			}
 			st := streamOf(frames)
-			g.emit("pbs %s -1 eof %d %s", framesTok(frames), g.intn(4), compactBytes(st))
+			g.emit("pbs %s -1 eof %d %s", framesTok(frames), g.intn(17), compactBytes(st))
 			if len(st) >= 32 {
 				g.emit("pbh %s eof", showBytes(st[:32+g.intn(len(st)-31)]))
 			}
@@ -203,7 +225,7 @@ func init() {
 				if g.intn(5) == 0 {
 					end = "inj" // read error injected at this offset
 				}
-				g.emit("pbs %s %d %s %d %s", ft, cut, end, g.intn(4), compactBytes(st[:cut]))
+				g.emit("pbs %s %d %s %d %s", ft, cut, end, g.intn(17), compactBytes(st[:cut]))
 			}
 		}
 		if g.thorough() {
@@ -227,7 +249,7 @@ func init() {
 			}
 			body := encodingOf(kind, ver, payload)
 			for k := 0; k < 32+len(body); k++ {
-				g.emit("pbmk %s %s %s %s %d %d", kind, verTok(v, hasVer), showBytes(payload), showBytes(body), k, g.intn(2))
+				g.emit("pbmk %s %s %s %s %d %d", kind, verTok(v, hasVer), showBytes(payload), showBytes(body), k, []int{0, 1, 3}[g.intn(3)])
 			}
 			// a writer that takes a write in full and still reports an error (on the header, on the body)
 			for _, k := range []int{1, 31, 32, 33, 32 + len(body), 32 + len(body) + 1} {
@@ -294,7 +316,8 @@ func init() {
 			"empty-slice", "slice3", "array3", "nil-ptr", "ptr", "nil-map", "map", "iface-field", "nested", "complex",
 			"big-structs-4095", "big-structs-4096", "big-structs-9000", "big-array", "big-strings", "big-bytes",
 			"alias-slice", "alias-fields", "alias-map", "embedded", "embedded-deep", "embedded-slice",
-			"same-address-1", "same-address-2", "same-address-3"}
+			"same-address-1", "same-address-2", "same-address-3", "same-name-a", "same-name-b", "same-name-a", "linked-list-100",
+			"linked-list-6000"}
 		for _, n := range names {
 			g.emit("sizeofnamed %s", n)
 		}
